@@ -94,6 +94,7 @@ type Ctx struct {
 	cur      atomic.Int64
 	curStart atomic.Int64
 	curCPU   atomic.Int64 // process CPU time (ns) at the last Begin / Heartbeat
+	allowCPU atomic.Int64 // extra CPU time (ns) the current case announced it needs (Allow); reset by Begin
 	res      result
 	all      map[uint64]struct{}
 	nt       map[uint64]struct{}
@@ -168,6 +169,7 @@ func (c *Ctx) Begin(desc string) bool {
 	}
 	c.sub = 0
 	c.cur.Store(seq)
+	c.allowCPU.Store(0)
 	c.curStart.Store(time.Now().UnixNano())
 	c.curCPU.Store(cpuNanos())
 	c.res.Evals++
@@ -194,6 +196,11 @@ func (c *Ctx) SubBegin(input []byte) bool {
 	}
 	return true
 }
+
+// Allow announces that the case just begun legitimately needs up to d of CPU time in ONE library
+// call (no progress can be reported from inside it), e.g. a single decode whose cost the library
+// makes quadratic. The hang watchdog grants that much on top of its threshold for this case only.
+func (c *Ctx) Allow(d time.Duration) { c.allowCPU.Store(int64(d)) }
 
 // Heartbeat tells the hang watchdog that the current case is making progress
 // (cases that are whole explorations run for much longer than one input).
@@ -534,7 +541,7 @@ func workerMain(props map[string]*Prop, a []string) {
 					blocked = time.Duration(runDelayNanos()-base) < 5*time.Second || waited > 100*hangAfter
 				}
 			}
-			if cur >= 0 && st > 0 && (burnt > hangAfter || blocked) {
+			if cur >= 0 && st > 0 && (burnt > hangAfter+time.Duration(c.allowCPU.Load()) || blocked) {
 				buf := make([]byte, 1<<20)
 				s1 := PlencFrame(buf[:runtime.Stack(buf, true)])
 				time.Sleep(time.Second)
